@@ -62,7 +62,12 @@ func ValidateSchemaDocument(sd *SchemaDocument) (*Schema, error) {
 		switch def.Kind {
 		case Union:
 			for _, t := range def.Types {
-				schema.AddPossibleType(def.Name, schema.Types[t])
+				member := schema.Types[t]
+				if member == nil {
+					// reported as an undefined type by validateDefinition
+					continue
+				}
+				schema.AddPossibleType(def.Name, member)
 				schema.AddImplements(t, def)
 			}
 		case InputObject, Object:
